@@ -81,7 +81,7 @@ pub fn judge(ctx: &Ctx, l: &mut Local, lat: f64, lon: f64) {
             ctx.violation("independent_of_elevation", &format!("{}_el{}", key, e), json!({"lat": lat, "lon": lon, "elevation": e}), json!({"at_0m": d, "at_elevation": qe.degrees()}));
         }
     }
-    if ctx.want_sample() && lat == 40.0 && (lon == -75.0 || lon == 116.5) {
+    if ctx.want_sample() && (lat - 40.1).abs() < 0.2 && (lon == -75.0 || lon == 116.5) {
         ctx.sample(json!({"lat": lat, "lon": lon, "degrees": d, "text": text, "reference": reference(lat, lon)}));
     }
 }
